@@ -34,6 +34,10 @@ class ContinueSig(Exception):
     pass
 
 
+class LemmaDone(Exception):
+    """A side path that only discharges the obligations of a loop rule has finished."""
+
+
 class PathPruned(Exception):
     """The current path turned out to be infeasible (an assumption contradicted the path)."""
 
@@ -158,6 +162,9 @@ class PathCtx:
             return k
         feas = []
         for k, c in enumerate(conds):
+            if len(conds) == 2 and k == 1 and not feas:
+                feas.append(k)      # the path condition is satisfiable, so the other side is
+                break
             r = self.check(c)
             if r == z3.sat:
                 feas.append(k)
@@ -175,6 +182,18 @@ class PathCtx:
         self.assume(conds[k])
         return k
 
+    def fork(self, n):
+        """n-way split into always-feasible alternatives (loop rules: lemma paths / main path)."""
+        if self.cursor < len(self.decisions):
+            k = self.decisions[self.cursor]
+            self.cursor += 1
+            return k
+        for alt in range(1, n):
+            self.engine.queue(self.decisions[:self.cursor] + [alt])
+        self.decisions.append(0)
+        self.cursor += 1
+        return 0
+
     def implied(self, f):
         """Is f implied by the path condition? (definite answers only)"""
         f = tob(f)
@@ -184,6 +203,25 @@ class PathCtx:
         if z3.is_false(s):
             return False
         return self.check(z3.Not(f)) == z3.unsat
+
+    # ---- facts quantified over all locations ------------------------------------------------
+    def assume_forall_loc(self, fn):
+        """Assume  forall x: Loc. fn(x).  Instantiated at every location term the path touches
+        and at the Skolem locations of later obligations (kept quantifier-free)."""
+        self.__dict__.setdefault("forall_locs", []).append(fn)
+        for loc in list(self.__dict__.get("_typed", {}).values()):
+            self.assume(fn(loc))
+
+    def skolem_loc(self, name="anyloc"):
+        x = self.fresh(name, T.Loc)
+        self.assume(z3.And(T.l_marks(x) >= 0, T.l_kind(x) >= 0, T.l_kind(x) <= T.K_EXT))
+        for fn in self.__dict__.get("forall_locs", []):
+            self.assume(fn(x))
+        return x
+
+    def oblige_forall_loc(self, name, fn, **kw):
+        x = self.skolem_loc()
+        return self.oblige(name, fn(x), **kw)
 
     # ---- obligations -----------------------------------------------------------------------
     def oblige(self, name, formula, site=None, detail="", props=()):
@@ -319,7 +357,7 @@ class Engine:
                 raise Undecided(f"{name}: more than {max_paths} paths")
             try:
                 summary = job(ctx)
-            except PathPruned:
+            except (PathPruned, LemmaDone):
                 continue
             self.paths += 1
             if summary is not None:
